@@ -25,7 +25,7 @@ claim("C08", "M", "SMT bounded model checking of MIR (z3 + cvc5 portfolio)",
       "Kernel level: every per-HTLC CLTV boundary inequality (forward admission, claim deadline <=> automatic fail-back, final-hop acceptance, the claim deadline announced with PaymentClaimable = earliest part expiry - 39, the monitor's go-on-chain decision for an unresolved HTLC: outbound expired >= 3 blocks ago, inbound with known preimage expiring within 36 blocks) for all heights < 2^31 and all expiries, and the safety margins they compose to; loops over HTLCs are decided one iteration at a time from an arbitrary loop-head state.",
       "trusted: rustc MIR dump, engine_m, z3/cvc5; the end-to-end race against the chain is outside the claim")
 claim("C16", "M", "SMT bounded model checking of MIR (z3 + cvc5 portfolio)",
-      "Kernel level: routing fee arithmetic (compute_fees, saturating variant), cross-module agreement with the forwarding node's fee check, max_htlc_from_capacity; all u64/u32/u8 inputs. Path level: PaymentPath::update_value_and_recompute_fees on 1-4 (thorough 5) symbolic hops - every forwarding node is paid at least its policy fee for the amount it forwards, every hop carries at least its htlc_minimum (amounts <= 2^40 msat, proportional fees <= 2^19 ppm). Inside get_route (regions of its MIR executed from an arbitrary state, all live locals havocked, graph / scorer / map look-ups stubbed): one application of the add_entry! macro (3 of its 8 expansions in the quick tier, all in the thorough tier) takes a candidate channel only for an amount that fits its usable maximum jointly with the liquidity earlier paths use, reaches its htlc_minimum, keeps total fee / CLTV / length within the request's limits, never takes a previously failed channel, and records the policy fee; one iteration of the loop that charges a selected path to used_liquidities. Counterexamples are replayed through the public find_route on small graphs with a native validator of the property's statement. The order of the search, that the regions compose to a whole valid route, scoring and completeness are outside the claim.",
+      "Kernel level: routing fee arithmetic (compute_fees, saturating variant), cross-module agreement with the forwarding node's fee check, max_htlc_from_capacity; all u64/u32/u8 inputs. Path level: PaymentPath::update_value_and_recompute_fees on 1-4 (thorough 5) symbolic hops - every forwarding node is paid at least its policy fee for the amount it forwards, every hop carries at least its htlc_minimum (amounts <= 2^40 msat, proportional fees <= 2^19 ppm). Inside get_route (regions of its MIR executed from an arbitrary state, all live locals havocked, graph / scorer / map look-ups stubbed): one application of the add_entry! macro (3 of its 8 expansions in the quick tier, all in the thorough tier) takes a candidate channel only for an amount that fits its usable maximum jointly with the liquidity earlier paths use, reaches its htlc_minimum, keeps total fee / CLTV / length within the request's limits, never takes a previously failed channel, and records the policy fee; one iteration of the loop that charges a selected path to used_liquidities; the CLTV budget and the minimal path contribution derived before the search; the key compared when identical selected paths are merged. Counterexamples are replayed through the public find_route on small graphs with a native validator of the property's statement. The order of the search, that the regions compose to a whole valid route, scoring and completeness are outside the claim.",
       "trusted: rustc MIR dump, engine_m, z3")
 claim("C07", "M", "SMT bounded model checking of MIR (z3 + cvc5 portfolio)",
       "Kernel level: which HTLC outputs of a confirmed counterparty commitment and of our own confirmed commitment get a claim, for which outpoint, of which kind and with which urgency height (one iteration of the HTLC loops of get_counterparty_output_claim_info / get_broadcasted_holder_htlc_descriptors from an arbitrary loop-head state plus the package closure, replayed on live nodes); claim-package fee kernels (first-attempt fee, RBF bumping incl. BIP-125 rules 3/4 and monotone feerates, anchor-claim feerate strategy, package output value, package locktime) for all amounts/estimates over a stated finite set of transaction weights and <=2 (quick) / <=3 (thorough) inputs. Which outputs are claimed, scripts and the sweeper are outside the claim.",
@@ -59,10 +59,10 @@ claim("C03", "M", "SMT bounded model checking of MIR (z3 + cvc5 portfolio)",
       "Kernel level (narrow): the payer's bookkeeping of one outbound payment - OutboundPayments::claim_htlc, fail_htlc, abandon_payment and add_new_pending_payment executed from the MIR on one entry of the pending-payment map in each state (Legacy / Retryable / Fulfilled / Abandoned, awaiting-invoice states for abandon), fields symbolic: PaymentSent is queued exactly once, when a claim meets a payment not yet fulfilled, and never for an unknown id; a fulfilled payment is never reported failed; a failed in-flight HTLC is reported once and PaymentFailed is queued exactly when it was the last HTLC of an abandoned payment - at most once, after the path failure, carrying the completion action - and the entry is dropped then and only then; duplicate failures and claims change nothing; abandoning reports failure at once only with no HTLC in flight and never un-fulfils a payment; a payment id in use is refused. The in-flight set is abstracted to its size, onion-failure decoding / hashing / the retry policy are free. Replayed on three live nodes (five payment scenarios driven by the library's test utilities, which assert the payer's events at every step). That the ChannelManager calls these functions exactly when HTLCs resolve (off-chain, on-chain, after restart), balances, retries and event replay across restarts are outside the claim.",
       "trusted: rustc MIR dump, engine_m, z3/cvc5; summaries of PendingOutboundPayment::remove / remaining_parts checked against their MIR per variant (C03.m)")
 claim("C15", "M", "SMT bounded model checking of MIR (z3 + cvc5 portfolio)",
-      "Kernel level: (a) the nonce / key-rotation kernel of PeerChannelEncryptor - one message across encrypt_message_with_header_0s, decrypt_length_header and decrypt_message from an arbitrary coupled post-handshake state (an inductive step over any number of messages and key rotations): the message is accepted with its length and both sides stay in step, nonces are consecutive and never reused, keys rotate exactly at nonce 1000 on both sides, an altered header or body is rejected; AEAD and HKDF abstracted (keys as identities, decryption succeeds iff same key, nonce and unaltered bytes). (c) one iteration of the read loop of PeerManager::do_read_event from an arbitrary loop-head state: partial reads, completed length headers, bodies and handshake acts are reassembled for reads of any size, authentication failures and lengths below 2 drop the connection, the buffer invariant is preserved, no slice index can go out of range. (d) do_handle_message_holding_peer_lock / handle_message: nothing but Init is accepted before Init, a second Init is refused, a refused message is not handled. Replayed with two real encryptors (hook), with two real PeerManagers over in-memory sockets cut into fragments of ten sizes, and [d] through a raw initiator (hook). The handshake cryptography, write-side back-pressure and panics on arbitrary handshake bytes are outside the claim.",
+      "Kernel level: (a) the nonce / key-rotation kernel of PeerChannelEncryptor - one message across encrypt_message_with_header_0s, decrypt_length_header and decrypt_message from an arbitrary coupled post-handshake state (an inductive step over any number of messages and key rotations): the message is accepted with its length and both sides stay in step, nonces are consecutive and never reused, keys rotate exactly at nonce 1000 on both sides, an altered header or body is rejected; AEAD and HKDF abstracted (keys as identities, decryption succeeds iff same key, nonce and unaltered bytes). (c) one iteration of the read loop of PeerManager::do_read_event from an arbitrary loop-head state: partial reads, completed length headers, bodies and handshake acts are reassembled for reads of any size, authentication failures and lengths below 2 drop the connection, the buffer invariant is preserved, no slice index can go out of range. (e) the write step of do_attempt_write_data: the socket is offered the unsent rest of the front buffer and the offset advances by what it took (no byte sent twice or skipped under back-pressure). (d) do_handle_message_holding_peer_lock / handle_message: nothing but Init is accepted before Init, a second Init is refused, a refused message is not handled. Replayed with two real encryptors (hook), with two real PeerManagers over in-memory sockets cut into fragments of ten sizes, and [d] through a raw initiator (hook). The handshake cryptography, which messages are queued when, and panics on arbitrary handshake bytes are outside the claim.",
       "trusted: rustc MIR dump, engine_m, z3/cvc5; crypto abstraction and the stubs of the read loop listed in the evidence")
 claim("C19", "M", "SMT bounded model checking of MIR (z3 + cvc5 portfolio), async bodies executed through their poll functions",
-      "Kernel level (narrow): the store operations the incremental-update persister (MonitorUpdatingPersisterAsyncInner, which the synchronous MonitorUpdatingPersister wraps) issues - update_persisted_channel, its synchronous part and its three async blocks executed for real: an update is written incrementally under its own id iff it is not the legacy id, incremental updates are enabled and the id is not a multiple of maximum_pending_updates, otherwise the full monitor is written (exactly one of the two); superseded updates are cleaned up only after a full write that succeeded, bounded by the update id of the monitor just written; success is reported iff the write succeeded. cleanup_in_range removes exactly start..=end; cleanup_stale_updates_for_monitor_to never removes an update above the stored monitor's id (<= 3 / 4 listed names). The key-value store is a stub with free outcomes; replayed on two live nodes persisting through the real persister (eight values of maximum_pending_updates), reading the store back after every payment. The stores themselves (FilesystemStore atomicity, threads), the recovery path's joined / batched reads and crash points between two store operations are outside the claim.",
+      "Kernel level (narrow): the store operations the incremental-update persister (MonitorUpdatingPersisterAsyncInner, which the synchronous MonitorUpdatingPersister wraps) issues - update_persisted_channel, its synchronous part and its three async blocks executed for real: an update is written incrementally under its own id iff it is not the legacy id, incremental updates are enabled and the id is not a multiple of maximum_pending_updates, otherwise the full monitor is written (exactly one of the two); superseded updates are cleaned up only after a full write that succeeded, bounded by the update id of the monitor just written; success is reported iff the write succeeded. cleanup_in_range removes exactly start..=end; cleanup_stale_updates_for_monitor_to never removes an update above the stored monitor's id (<= 3 / 4 listed names); the public cleanup_stale_updates bounds by the monitor as stored; recovery (maybe_read_channel_monitor_with_updates, <= 2 / 3 listed updates) applies exactly the stored updates above the stored monitor's id, in ascending order, and fails rather than return a shorter history. The key-value store is a stub with free outcomes; replayed on two live nodes persisting through the real persister (eight values of maximum_pending_updates), reading the store back after every payment. The stores themselves (FilesystemStore atomicity, threads) and crash points between two store operations are outside the claim.",
       "trusted: rustc MIR dump, engine_m (coroutine state values), z3/cvc5")
 claim("C20", "M", "SMT bounded model checking of MIR (z3 + cvc5 portfolio), async bodies executed through their poll functions",
       "Function level over lightning-block-sync's MIR, block hashes as identities, chain work as integers, every awaited future immediately ready with an arbitrary answer: check_builds_on (a parent must be named by hash, be one lower and account for the chain work; mainnet difficulty rules); ChainPoller's three async blocks (a parent / tip / block is accepted from a source only if it hashes - proof of work - to exactly the hash asked for; Better only with strictly more work); find_difference_from_header (most recent common ancestor and the contiguous list of blocks to connect, both tips <= 2 (quick) / 3 (thorough) blocks above it, arbitrary tree); connect_blocks (oldest first, each once, stops at the first failed fetch and reports the tip reached; <= 3 / 5 blocks); synchronize_listener (disconnect to the ancestor before connecting, nothing touched if the walk fails); update_chain_tip / poll_best_tip (the client's tip is where the listeners are; only Better tips move them). Counterexamples are replayed on the real SpvClient over 2000 fork shapes x source behaviours x tip changes with a native validator of the notification sequence. Start-up synchronisation (init::synchronize_listeners), the header cache's eviction, proof-of-work / merkle validation itself and the HTTP sources are outside the claim.",
